@@ -547,9 +547,17 @@ class Oracle:
         self.role_exec = None    # executor / approver lists as the accepted requests set them (independent of storage)
         self.role_appr = None
         self.meta_version = getattr(self, "meta_version", None)
+        self.model_inv = None    # InvCheck.inv_check on the state before the current event, as the model runner reports it
+        self.inv_reported = False
 
     def restricted(self, d):
         return (self.markers.get(d) or "").startswith("R")
+
+    def judges_invariant(self):
+        """the theorems claim Inv for states reached from an instantiation by accepted requests outside the recorded
+        classes (Inv_reachable, Hist.Inv_hrun); seeded legacy books are claimed only when well-formed (MigPre), which the
+        generator does not promise"""
+        return self.started and self.tainted is None and not self.seeded and not self.migration
 
     def owed(self, asks, bids):
         o = {}
@@ -645,6 +653,14 @@ class Oracle:
             return out
         if k.startswith("SEED"):
             self.seeded = True
+        # ---- C11: the state the implementation is in satisfies the invariant of the theorems (decided by the extracted
+        # InvCheck.inv_check, proved equivalent to Inv); reported once per history
+        if self.model_inv is False and not self.inv_reported and self.judges_invariant() and \
+                k in ("EXEC", "PEXEC", "QUERY", "MIGRATE", "PMIGRATE"):
+            self.inv_reported = True
+            out.append(("C11", None, "the state before this event violates the invariant of the theorems (Inv.v: order stored under its own "
+                                     "valid id, positive remainders, unspent = price * unfilled, fee held = pro-rata share, class and "
+                                     "denominations consistent with the configuration, ...)"))
         # ---- C10: message shape against the marker table served
         if b.ok and k in ("EXEC", "PEXEC", "INST", "MIGRATE", "PMIGRATE"):
             for m in b.msgs:
@@ -1030,6 +1046,20 @@ class Oracle:
                             out.append(("C02", None, "selling side + ask fee received %d, price*size is %s" % (fl.get((seller, q), 0) + af, gross)))
                         if a0.cls[0] == "ready" and fl.get((seller, a0.base), 0) != s:
                             out.append(("C02", None, "approver did not receive the converted denomination"))
+                        # the ask fee: configured rate times the executed total, rounded half away from zero (exact whenever
+                        # mantissa(rate) * total < 2^96; beyond that lies the recorded class K_rate)
+                        if self.cfg.ask_fee and gross.denominator == 1:
+                            rate = parse_dec_exact(self.cfg.ask_fee[1])
+                            if rate is not None and rate >= 0:
+                                exact = rate * gross
+                                qf, rf = divmod(exact.numerator, exact.denominator)
+                                want_fee = qf + 1 if 2 * rf >= exact.denominator else qf
+                                if af != want_fee:
+                                    inside = _mant(self.cfg.ask_fee[1]) * int(gross) >= 2 ** 96
+                                    out.append(("C09", "K_rate" if inside else None,
+                                                "ask fee of %d taken on a total of %d, rate %s rounds to %d" % (af, int(gross), self.cfg.ask_fee[1], want_fee)))
+                                    if not inside:
+                                        out.append(("C02", None, "ask-fee account received %d, rate*price*size rounded half away from zero is %d" % (af, want_fee)))
                         if p < bp and fl.get((b0.owner, q), 0) < (bp - p) * s:
                             out.append(("C02", None, "price-improvement refund below (bid price - price)*size"))
                 elif ev.sub in REVERSE:
